@@ -261,11 +261,16 @@ COMPONENTS = [
                        '-OO (the docstring facet is skipped under -OO, which strips '
                        'docstrings)'),
     Component('preludes', optchild.flagged('C14', check),
-              bulk=optchild.make_bulk('C14', ['catalogue'], flags=('',),
-                                      preludes=('bases', 'subclass')),
+              bulk=optchild.make_bulk('C14', ['catalogue'], flags=('', '-bb'),
+                                      preludes=('bases', 'subclass', 'partial',
+                                                'apifuzz'),
+                                      envs=({}, {'LANG': 'de_DE.UTF-8', 'LC_ALL': ''}, {'LC_ALL': 'pt_BR.UTF-8'},
+                                            {'LANG': 'tr_TR.UTF-8', 'LC_MESSAGES': 'ja_JP.UTF-8'})),
               distinct_by_construction=True, exhaustive=True,
               shards={'quick': 1, 'thorough': 1},
               describe='the same sweep in child interpreters after an application-style '
-                       'prelude: accessors called on the abstract bases first; '
-                       'application subclasses of every exception / frame class'),
+                       'prelude (accessors on the abstract bases first; application '
+                       'subclasses; an abandoned first iteration of every class; the '
+                       'public helper functions called with 1200 distinct arguments), '
+                       'also with -bb and under foreign locale environments'),
 ]
